@@ -257,8 +257,19 @@ def projection(opt):
     for isl in getattr(opt, "islands", [opt]):
         pops.append([ind(i) for i in isl.population])
     hof = None if opt.hall_of_fame is None else [ind(i) for i in opt.hall_of_fame]
-    return {"pops": pops, "age": opt.generational_age, "evals": opt.get_fitness_evaluation_count(), "hof": hof,
-            "diag": repr(opt.get_ea_diagnostic_info().summary)}
+    out = {"pops": pops, "age": opt.generational_age, "evals": opt.get_fitness_evaluation_count(), "hof": hof,
+           "diag": repr(opt.get_ea_diagnostic_info().summary)}
+    if hasattr(opt, "_predictor_island"):
+        # fitness-predictor island: the co-evolving predictor population, its trainers, and the counters that steer how many
+        # predictor generations run per main generation
+        pi = opt._predictor_island
+        pff = opt._predictor_fitness_function
+        out["predictors"] = [(repr(getattr(i, "values", None)), repr(i.fitness), i.fit_set, i.genetic_age) for i in pi.population]
+        out["predictor_age"] = pi.generational_age
+        out["predictor_evals"] = pi.get_fitness_evaluation_count()
+        out["point_eval_count"] = getattr(pff, "point_eval_count", None)
+        out["hof_predicted"] = [ind(i) for i in opt._hof_w_predicted_fitness] if getattr(opt, "_hof_w_predicted_fitness", None) is not None else None
+    return out
 
 
 def make_agraph_island(rng, pop=10):
@@ -282,20 +293,45 @@ def make_agraph_island(rng, pop=10):
     return Island(ea, gen, pop, hall_of_fame=HallOfFame(3))
 
 
+def make_predictor_island(rng):
+    from bingo.evaluation.evaluation import Evaluation
+    from bingo.evolutionary_algorithms.age_fitness import AgeFitnessEA
+    from bingo.evolutionary_optimizers.fitness_predictor_island import FitnessPredictorIsland
+    from bingo.stats.hall_of_fame import HallOfFame
+    from bingo.symbolic_regression.agraph.component_generator import ComponentGenerator
+    from bingo.symbolic_regression.agraph.crossover import AGraphCrossover
+    from bingo.symbolic_regression.agraph.generator import AGraphGenerator
+    from bingo.symbolic_regression.agraph.mutation import AGraphMutation
+    from bingo.symbolic_regression.explicit_regression import ExplicitRegression, ExplicitTrainingData
+    x = np.linspace(-2, 2, 40).reshape(-1, 1)
+    y = x ** 2 + 0.5 * x
+    cg = ComponentGenerator(1)
+    for op in ("+", "-", "*"):
+        cg.add_operator(op)
+    gen = AGraphGenerator(8, cg)
+    ea = AgeFitnessEA(Evaluation(ExplicitRegression(training_data=ExplicitTrainingData(x, y))), gen, AGraphCrossover(), AGraphMutation(cg),
+                      0.4, 0.4, 10)
+    return FitnessPredictorIsland(ea, gen, 10, predictor_population_size=4, predictor_update_frequency=rng.choice([2, 3]),
+                                  predictor_size_ratio=0.3, predictor_computation_ratio=rng.choice([0.2, 0.8]), trainer_population_size=3,
+                                  trainer_update_frequency=rng.choice([2, 4]), hall_of_fame=HallOfFame(3))
+
+
 def lossless(ctx, rep):
     from bingo.evolutionary_optimizers.serial_archipelago import SerialArchipelago
     from harness.bingo_util import simple_island
     rng = ctx.rng
-    for t in range(ctx.n(6, 40)):
+    for t in range(ctx.n(8, 40)):
         np.random.seed(rng.randrange(2 ** 31))
         random.seed(rng.randrange(2 ** 31))
-        kind = ["island", "agraph", "arch"][t % 3]
+        kind = ["island", "agraph", "arch", "predictor island"][t % 4]
         with warnings.catch_warnings():
             warnings.simplefilter("ignore")
             if kind == "island":
                 opt, _ = simple_island(8)
             elif kind == "agraph":
                 opt = make_agraph_island(rng)
+            elif kind == "predictor island":
+                opt = make_predictor_island(rng)
             else:
                 tmpl, _ = simple_island(6)
                 opt = SerialArchipelago(tmpl, num_islands=3)
@@ -314,11 +350,12 @@ def lossless(ctx, rep):
                 rep.violate(f"{kind}: loaded optimizer differs from the dumped one", "C13:lossy", case)
                 continue
             st_np, st_py = np.random.get_state(), random.getstate()
-            opt.evolve(3)
+            more = 8 if kind == "predictor island" else 3
+            opt.evolve(more)
             a = projection(opt)
             np.random.set_state(st_np)
             random.setstate(st_py)
-            loaded.evolve(3)
+            loaded.evolve(more)
             b = projection(loaded)
             if a != b:
                 rep.violate(f"{kind}: continued evolution of the loaded optimizer diverges from the original under the same RNG state",
